@@ -8,6 +8,7 @@ is then called under CPython and the failed clause is evaluated natively on its 
 """
 from __future__ import annotations
 
+from pyvc.loader import materialize
 import ast
 import inspect
 import traceback
@@ -178,7 +179,8 @@ def replay(contract: Any, clause: Any, obligation: Any, max_models: int = 16) ->
             tried += 1
             ns = dict(args)
             try:
-                ns["result"] = fi.pyfunc(*[args[a] for a in fi.argnames])
+                from .loader import materialize
+                ns["result"] = materialize(fi)(*[args[a] for a in fi.argnames])
             except Exception:
                 continue
             ok, why = native_clause(clause, ns)
@@ -229,7 +231,7 @@ def replay(contract: Any, clause: Any, obligation: Any, max_models: int = 16) ->
             ns = dict(args)
             ns.update(cand.get("ghost", {}))
             try:
-                res = fi.pyfunc(*[args[a] for a in fi.argnames])
+                res = materialize(fi)(*[args[a] for a in fi.argnames])
             except Exception as e:
                 if obligation.kind == "safe":
                     out.update(status="violation", detail=f"real function raised {type(e).__name__}: {e}",
@@ -270,7 +272,7 @@ def replay_frame(contract: Any, obligation: Any) -> Dict[str, Any]:
         tried += 1
         before = copy.deepcopy(args.get(pname))
         try:
-            fi.pyfunc(*[args[a] for a in fi.argnames])
+            materialize(fi)(*[args[a] for a in fi.argnames])
         except Exception as e:
             continue
         if args.get(pname) != before:
